@@ -153,7 +153,7 @@ def ostep (s : OState) (l : SLabel) (o : Obs) : OState :=
   let s := { s with k := s.k + 1 }
   if o.skip then { s with sawSkip := true } else
   if o.hang then failWith s s!"FAIL hang at label {s.k} ({labelTok l}): the goroutine did not reach its next yield point" else
-  let s := if o.panic ≠ "" then failWith s s!"FAIL panic in the timer callback at label {s.k}: {o.panic}" else s
+  let s := if o.panic ≠ "" then failWith s s!"FAIL panic at label {s.k} ({labelTok l}): {o.panic}" else s
   -- where the goroutine stood before the step
   let from_ : Nat := match l with
     | .main => s.mainPt
